@@ -4,7 +4,7 @@
 REPO=${1:-/repo}
 OUT=$(mktemp -d)
 unset GOTRANX_VERIF
-(cd "$REPO" && /venv/bin/python -m pytest -ra -q -p no:cacheprovider --timeout=900 --continue-on-collection-errors --junitxml="$OUT/r.xml" >"$OUT/log" 2>&1)
+(cd "$REPO" && PYTHONPATH="$REPO/src" /venv/bin/python -m pytest -ra -q -p no:cacheprovider --timeout=900 --continue-on-collection-errors --junitxml="$OUT/r.xml" >"$OUT/log" 2>&1)
 /venv/bin/python - "$OUT/r.xml" <<'P'
 import json, sys, xml.etree.ElementTree as ET
 base = json.load(open('/root/.vp/BASELINE.json'))
